@@ -157,6 +157,105 @@ def default_of(call):
     err(call, "field without default")
 
 
+# ---- _attr_to_optparse_option (parsers/docutils_.py)
+OPT_SRC = "myst_parser/parsers/docutils_.py"
+VALIDATOR_KIND = {
+    "_validate_url_schemes": "KUrlSchemes", "_validate_int": "KInt", "frontend.validate_boolean": "KBool",
+    "frontend.validate_comma_separated_list": "KCommaList", "_validate_comma_separated_set": "KCommaSet",
+}
+
+
+def opt_type(e):
+    """a type expression in a test of the if-chain: like an annotation, with type(None) for None"""
+    if isinstance(e, ast.Call) and ast.unparse(e) == "type(None)":
+        return "ANone"
+    if isinstance(e, ast.BinOp) and isinstance(e.op, ast.BitOr):
+        return f"(AOr {opt_type(e.left)} {opt_type(e.right)})"
+    return ann(e)
+
+
+def opt_cond(e):
+    if isinstance(e, ast.BoolOp) and isinstance(e.op, ast.Or) and len(e.values) == 2:
+        return f"(COr {opt_cond(e.values[0])} {opt_cond(e.values[1])})"
+    src = ast.unparse(e)
+    if isinstance(e, ast.Compare) and len(e.ops) == 1 and len(e.comparators) == 1:
+        left, op, right = ast.unparse(e.left), e.ops[0], e.comparators[0]
+        if left == "at.name" and isinstance(op, ast.Eq) and isinstance(right, ast.Constant) and isinstance(right.value, str):
+            return f"(CNameIs {coq_str(right.value)})"
+        if left == "at.type" and isinstance(op, (ast.Is, ast.Eq)):
+            return f"(CTypeIs {opt_type(right)})"
+        if left == "at.type" and isinstance(op, ast.In) and isinstance(right, ast.Tuple):
+            return "(CTypeIn [" + "; ".join(opt_type(x) for x in right.elts) + "])"
+        if left == "get_origin(at.type)" and isinstance(op, ast.Is) and ast.unparse(right) == "dict":
+            return "COriginDict"
+    if src == "get_origin(at.type) is Literal and all((isinstance(a, str) for a in get_args(at.type)))":
+        return "CLiteralStr"
+    raise Untranslatable(f"{OPT_SRC}:{e.lineno}: test of _attr_to_optparse_option not understood: {src[:100]}")
+
+
+def opt_kind(ret):
+    """the returned ({...optparse kwargs...}, default_str): which validator decodes the string"""
+    if not (isinstance(ret, ast.Return) and isinstance(ret.value, ast.Tuple) and len(ret.value.elts) == 2
+            and isinstance(ret.value.elts[0], ast.Dict)):
+        raise Untranslatable(f"{OPT_SRC}:{ret.lineno}: return of _attr_to_optparse_option not understood")
+    d = ret.value.elts[0]
+    kw = {}
+    for k, v in zip(d.keys, d.values):
+        if not (isinstance(k, ast.Constant) and isinstance(k.value, str)):
+            raise Untranslatable(f"{OPT_SRC}:{ret.lineno}: optparse kwargs key not a literal")
+        kw[k.value] = v
+    if set(kw) - {"metavar", "validator", "type", "choices"}:
+        raise Untranslatable(f"{OPT_SRC}:{ret.lineno}: unknown optparse kwargs {sorted(kw)}")
+    if "type" in kw:
+        if not (isinstance(kw["type"], ast.Constant) and kw["type"].value == "choice" and "validator" not in kw):
+            raise Untranslatable(f"{OPT_SRC}:{ret.lineno}: optparse type not understood")
+        return "KChoice"
+    if "validator" not in kw:
+        return "KStrRaw"
+    v = kw["validator"]
+    src = ast.unparse(v)
+    if src in VALIDATOR_KIND:
+        return VALIDATOR_KIND[src]
+    if isinstance(v, ast.Call) and ast.unparse(v.func) == "_create_validate_tuple" and len(v.args) == 1 \
+            and isinstance(v.args[0], ast.Constant) and type(v.args[0].value) is int and v.args[0].value >= 0:
+        return f"(KTuple {v.args[0].value})"
+    if isinstance(v, ast.Call) and ast.unparse(v.func) == "_create_validate_yaml":
+        return "KYamlDict"
+    raise Untranslatable(f"{OPT_SRC}:{ret.lineno}: option validator not understood: {src[:80]}")
+
+
+def optparse_rules(repo: Path):
+    src = (repo / OPT_SRC).read_text()
+    tree = ast.parse(src)
+    fn = [n for n in tree.body if isinstance(n, ast.FunctionDef) and n.name == "_attr_to_optparse_option"]
+    if len(fn) != 1:
+        raise Untranslatable(f"{OPT_SRC}: _attr_to_optparse_option not found")
+    fn = fn[0]
+    if [a.arg for a in fn.args.args] != ["at", "default"]:
+        raise Untranslatable(f"{OPT_SRC}: signature of _attr_to_optparse_option changed")
+    rules = []
+    body = [st for st in fn.body if not (isinstance(st, ast.Expr) and isinstance(st.value, ast.Constant))]
+    for st in body[:-1]:
+        if not (isinstance(st, ast.If) and not st.orelse and len(st.body) in (1, 2)):
+            raise Untranslatable(f"{OPT_SRC}:{st.lineno}: statement of the if-chain not understood")
+        stmts = st.body
+        if len(stmts) == 2:      # args = get_args(at.type); return {...}
+            if ast.unparse(stmts[0]) != "args = get_args(at.type)":
+                raise Untranslatable(f"{OPT_SRC}:{st.lineno}: statement before the return not understood")
+        rules.append({"cond": opt_cond(st.test), "kind": opt_kind(stmts[-1]),
+                      "src": " ".join(ast.unparse(st.test).split())})
+    last = body[-1]
+    if not (isinstance(last, ast.Raise) and "AssertionError" in ast.unparse(last)):
+        raise Untranslatable(f"{OPT_SRC}: the if-chain does not end with raise AssertionError")
+    return rules, hashlib.sha256(src.encode()).hexdigest()[:16]
+
+
+def dc_validator_defs(repo: Path):
+    """names of the validator (factory) functions defined in dc_validators.py"""
+    tree = ast.parse((repo / "myst_parser/config/dc_validators.py").read_text())
+    return [n.name for n in tree.body if isinstance(n, ast.FunctionDef) and n.name not in ("validate_field", "validate_fields")]
+
+
 def generate(repo: Path):
     src = (repo / SRC).read_text()
     tree = ast.parse(src)
@@ -259,9 +358,15 @@ def generate(repo: Path):
             f"     f_default := {f['default']} |}}")
     lines.append(";\n".join(rows))
     lines += ["].", ""]
+    rules, opt_hash = optparse_rules(repo)
+    lines += ["(* the if-chain of parsers/docutils_.py _attr_to_optparse_option, in source order *)",
+              "Definition optparse_rules : list (ocond * okind) := ["]
+    lines.append(";\n".join(f"  ({r['cond']}, {r['kind']})  (* if {cmt(r['src'])} *)" for r in rules))
+    lines += ["].", ""]
     text = "\n".join(lines)
-    return text, {"fields": fields, "known_extensions": known,
-                  "hash": hashlib.sha256(src.encode()).hexdigest()[:16]}
+    return text, {"fields": fields, "known_extensions": known, "optparse_rules": rules,
+                  "dc_validator_defs": dc_validator_defs(repo), "customs": sorted(customs),
+                  "hash": hashlib.sha256(src.encode()).hexdigest()[:16], "optparse_hash": opt_hash}
 
 
 if __name__ == "__main__":
